@@ -130,6 +130,16 @@ CHECKS = {
             "specification maps the document to (type tags included), serialise it back to an equal document (type-strict comparison), "
             "and reach with .field / [\"key\"] / [i] exactly the element the path reaches in the document.",
             "Trusted: TLC, Python's json parser for number text. NaN / infinities are not JSON and are not generated.", "5/C15"),
+    "C16": ("TLA+ spec CelThreads (threads = RECORDED per-line read/write programs over process-wide cells; Step(t) atomic per line) "
+            "checked by TLC for NoInterference over ALL interleavings; the TLC witness and every single-preemption schedule at the recorded "
+            "shared accesses replayed into real threads by a deterministic line-level scheduler, results compared with each job alone",
+            "Each job (own Environment, program, bindings; both runners; macro / has / filter / string programs) is evaluated alone under a "
+            "tracer that records, per executed library line, the module- and class-namespace names (and directly bound containers / library "
+            "objects) it reads and writes; TLC explores every interleaving of two recorded programs; a settrace scheduler then forces the "
+            "witness and the single-preemption schedules (all lines touching shared cells +-1 and a stride sample of all lines; two "
+            "preemptions and a free-running 4-thread stress in the thorough tier) and each thread's result must equal its result alone.",
+            "Trusted: TLC, sys.settrace line granularity (interleavings inside one Python line and inside C code are reached only by the "
+            "stress run). Environment / program creation happens before the scheduled region.", "5/C16"),
     "C17": ("TLA+ spec C7nLib (set predicates, normalize, a recursive glob matcher, IPv4 containment on masked octets, version order, tag "
             "lookup, message:action@date split, ARN split, the filter-context state machine) checked by TLC; every case called directly "
             "and through CEL with FUNCTIONS bound; every context history replayed through C7N_Interpreted_Runner",
